@@ -55,10 +55,17 @@ def run(ctx: Any, prog: Program) -> None:
         if any(isinstance(c, ast.Call) and isinstance(c.func, ast.Attribute) and c.func.attr == 'add' and c.args and dotted(c.args[0]) == pe_ for c in ast.walk(hfl_[0])) \
                 and any(isinstance(x, ast.Subscript) and dotted(x.value) == pm_ and dotted(x.slice) == pk_ for x in ast.walk(hfl_[0])):
             add_helpers.add(hq_)
+    # module-level helpers that take the entity out of a set of the mapping they are given (`_remove_copyset`, or a "move" helper)
+    removing_helpers: Set[str] = set()
+    for hq_, hfl_ in vm.all_funcs().items():
+        if '.' in hq_ or len(hfl_) != 1 or len(hfl_[0].args.args) < 3:
+            continue
+        if any(isinstance(c, ast.Call) and isinstance(c.func, ast.Attribute) and c.func.attr in ('discard', 'remove') for c in ast.walk(hfl_[0])):
+            removing_helpers.add(hq_)
     ctx.rule('C07.I2', 'Entity._keys is mutated only by __init__/__setitem__/__delitem__', floor=4)
     ctx.rule('C07.I3', 'index maintenance: remove-old-first, guarded add, list and indexes updated together', floor=10)
     ctx.rule('C07.I4', 'worldspawn is registered, cannot be re-classed and its classname cannot be deleted', floor=4)
-    ctx.rule('C07.I5', 'CopySet iterates a snapshot', floor=1)
+    ctx.rule('C07.I5', 'CopySet and the generators of VMF iterate a snapshot of what they walk', floor=3)
     ctx.rule('C07.I7', 'an Iterable parameter feeding both the entity list and the indexes is materialised before it is consumed twice', floor=1)
     ctx.rule('C07.I8', 'the case-preserving key store is only addressed with a stored spelling (search-loop variable) or inside the no-match branch', floor=6)
     ctx.rule('C07.I6', 'replacing VMF.spawn unregisters the previous spawn from both indexes', floor=1)
@@ -206,24 +213,67 @@ def run(ctx: Any, prog: Program) -> None:
                         if name == '__delitem__' and field == 'classname':
                             continue
                         calls = [c for s in n.body for c in ast.walk(s) if isinstance(c, ast.Call)]
-                        removes = [c for c in calls if dotted(c.func) == '_remove_copyset' and index_of(c.args[0]) == idx]
+                        removes = [c for c in calls if dotted(c.func) in removing_helpers and c.args and index_of(c.args[0]) == idx]
                         adds = [c for c in calls if isinstance(c.func, ast.Attribute) and c.func.attr == 'add' and isinstance(c.func.value, ast.Subscript)
                                 and index_of(c.func.value.value) == idx]
-                        ok = bool(removes) and (not adds or removes[0].lineno < min(a.lineno for a in adds)) \
-                            and removes[0] in [c for c in ast.walk(n.body[0])]
+
+                        def removal_first(stmts: List[ast.stmt]) -> bool:
+                            # every path through `stmts` reaches a removal before it reaches an add or the end
+                            for st_ in stmts:
+                                if isinstance(st_, ast.If):
+                                    if any(c is x for c in removes for x in ast.walk(st_.test)):
+                                        return True
+                                    if removal_first(st_.body) and removal_first(st_.orelse):
+                                        return True
+                                    if any(c is x for c in adds + removes for x in ast.walk(st_)):
+                                        return False
+                                    continue
+                                if any(c is x for c in removes for x in ast.walk(st_)):
+                                    return not any(a is x and a.lineno < min(r.lineno for r in removes if any(r is y for y in ast.walk(st_))) for a in adds for x in ast.walk(st_))
+                                if any(c is x for c in adds for x in ast.walk(st_)) or isinstance(st_, (ast.Return, ast.Raise)):
+                                    return False
+                            return False
+                        ok = bool(removes) and removal_first(n.body)
                         ctx.check('C07.I3', ok, vm, n, f'the {field} arm of Entity.{name} must start by removing the old {idx} entry (found {len(removes)} removals)',
                                   text=f'{name}: {field} arm removes old entry first')
         # function-wide: for each index, the first add comes after the first removal (whatever the arm tests look like).  Adding first and
         # removing the old entry later discards the entity again when old and new key coincide (a blank targetname is None both times).
         for idx in INDEXES:
             adds_ = [c for c in walk_no_nested(fn) if isinstance(c, ast.Call) and isinstance(c.func, ast.Attribute) and c.func.attr == 'add' and isinstance(c.func.value, ast.Subscript) and index_of(c.func.value.value) == idx]
-            rems_ = [c for c in walk_no_nested(fn) if isinstance(c, ast.Call) and dotted(c.func) == '_remove_copyset' and c.args and index_of(c.args[0]) == idx]
+            rems_ = [c for c in walk_no_nested(fn) if isinstance(c, ast.Call) and dotted(c.func) in removing_helpers and c.args and index_of(c.args[0]) == idx]
             if not adds_:
                 continue
             first_add = min(adds_, key=lambda c: c.lineno)
             ok = bool(rems_) and min(r.lineno for r in rems_) < first_add.lineno
             ctx.check('C07.I3', ok, vm, first_add, f'Entity.{name} adds the entity to {idx} (line {first_add.lineno}) before it removed the old {idx} entry' + (f' (line {min(r.lineno for r in rems_)})' if rems_ else ' (never)')
                       + ': when the old and the new key are the same - a blank targetname is the key None both before and after - the later removal takes the entity out again', text=f'{name}: {idx} removal precedes the add')
+    # a set taken out of the mapping is a handle on the entry it was filed under at that moment: once an entry of the same mapping has been
+    # deleted, a handle fetched earlier may be that very set (old key == new key: a value re-assigned in another letter case, a blank name
+    # that stays blank), and adding to it files the entity in a set nothing points to any more
+    n_handle = 0
+    for hq_, hfl_ in vm.all_funcs().items():
+        for hf_ in hfl_:
+            dels_ = [d for d in walk_no_nested(hf_) if isinstance(d, ast.Delete) and any(isinstance(t, ast.Subscript) and (index_of(t.value) or (isinstance(t.value, ast.Name) and t.value.id in {a.arg for a in hf_.args.args})) for t in d.targets)]
+            if not dels_:
+                continue
+            for a_ in walk_no_nested(hf_):
+                if not (isinstance(a_, ast.Assign) and len(a_.targets) == 1 and isinstance(a_.targets[0], ast.Name)):
+                    continue
+                v_ = a_.value
+                src_ = v_.value if isinstance(v_, ast.Subscript) else (v_.func.value if isinstance(v_, ast.Call) and isinstance(v_.func, ast.Attribute) and v_.func.attr in ('get', 'setdefault') else None)
+                if src_ is None:
+                    continue
+                for d_ in dels_:
+                    tgt_ = next(t for t in d_.targets if isinstance(t, ast.Subscript))
+                    if U(tgt_.value) != U(src_) or d_.lineno <= a_.lineno:
+                        continue
+                    n_handle += 1
+                    late = [c for c in walk_no_nested(hf_) if isinstance(c, ast.Call) and isinstance(c.func, ast.Attribute) and c.func.attr in ('add', 'update') and isinstance(c.func.value, ast.Name)
+                            and c.func.value.id == a_.targets[0].id and c.lineno > d_.lineno]
+                    same_key = U(tgt_.slice) == U(v_.slice if isinstance(v_, ast.Subscript) else (v_.args[0] if v_.args else v_))
+                    ctx.check('C07.I3', not late, vm, late[0] if late else a_, f'{hq_}: `{a_.targets[0].id}` is taken from `{U(src_)}` (line {a_.lineno}) before `{U(d_)}` (line {d_.lineno}) and added to afterwards: '
+                              f'when `{U(tgt_.slice)}` and the key it was fetched under are equal, that is the set just removed from the mapping, and the entity ends up in none of the indexed sets', func=hq_, text=f'{hq_}: no add to a set fetched before an entry was deleted')
+    ctx.shape('C07.I3', n_handle >= 1, vm, vm.tree, f'{n_handle} set handles fetched before a `del mapping[key]` found (_remove_copyset confirmed by hand)', text='set handles and entry deletion')
     vmf_methods = vm.methods('VMF')
     for name, listop in (('add_ent', 'append'), ('add_ents', 'extend'), ('remove_ent', 'remove')):
         fn = vmf_methods[name]
@@ -444,6 +494,27 @@ def run(ctx: Any, prog: Program) -> None:
         y = body[1]
         ok = isinstance(y, ast.Expr) and isinstance(y.value, ast.YieldFrom) and dotted(y.value.value) == snap
     ctx.check('C07.I5', ok, vm, ci, 'CopySet.__iter__ must iterate a snapshot taken before yielding (mutation during iteration is part of the API)', text='snapshot iteration')
+    # the same for the generators of VMF: a loop over by_class / by_target (or a view of them) that yields from inside the loop is suspended
+    # while the caller renames or removes what it was handed; it has to walk a snapshot (list/tuple/sorted/frozenset of the view)
+    n_gen = 0
+    for mq_, mfn_ in vm.methods('VMF').items():
+        if not any(isinstance(y, (ast.Yield, ast.YieldFrom)) for y in walk_no_nested(mfn_)):
+            continue
+        for lp_ in walk_no_nested(mfn_):
+            if not isinstance(lp_, ast.For):
+                continue
+            it_ = lp_.iter
+            base_ = it_.func.value if isinstance(it_, ast.Call) and isinstance(it_.func, ast.Attribute) and it_.func.attr in ('items', 'keys', 'values') else it_
+            snap_ = isinstance(it_, ast.Call) and dotted(it_.func) in ('list', 'tuple', 'sorted', 'frozenset', 'set') and it_.args and any(index_of(x) for x in ast.walk(it_.args[0]))
+            live_ = index_of(base_) is not None
+            if not (snap_ or live_):
+                continue
+            if not any(isinstance(y, (ast.Yield, ast.YieldFrom)) for b in lp_.body for y in ast.walk(b)):
+                continue
+            n_gen += 1
+            ctx.check('C07.I5', snap_, vm, lp_, f'VMF.{mq_} yields from inside `for {U(lp_.target)} in {U(it_)[:50]}`, a live view of the index: renaming or removing an entity it handed out changes the mapping while the '
+                      'generator is suspended (RuntimeError "dictionary changed size during iteration", or entities visited twice / never)', func=f'VMF.{mq_}', text=f'VMF.{mq_}: index walked through a snapshot')
+    ctx.shape('C07.I5', n_gen >= 2, vm, vm.tree, f'{n_gen} yielding loops over an index found in the generators of VMF (2 in search() confirmed by hand)', text='yielding index loops')
     # ---- I6 --------------------------------------------------------------------------------------------
     for qual, fns in vm.all_funcs().items():
         for fn in fns:
@@ -465,6 +536,9 @@ def run(ctx: Any, prog: Program) -> None:
 
 
 MUTANTS = [
+    {'id': 'search_wildcard_walks_live_index', 'file': 'vmf.py', 'find': "            for ent_name, ents in list(self.by_target.items()):\n                if ent_name is not None and ent_name.casefold().startswith(name):", 'replace': "            for ent_name, ents in self.by_target.items():\n                if ent_name is not None and ent_name.casefold().startswith(name):", 'expect': 'C07.I5'},
+    {'id': 'move_helper_adds_to_stale_set', 'file': 'vmf.py', 'find': "class StrataInstanceVisibility(Enum):", 'replace': "def _move_copyset(mapping, old_key, new_key, ent):\n    old_set = mapping.get(old_key, None)\n    new_set = mapping[new_key]\n    if old_set is not None:\n        old_set.discard(ent)\n        if not old_set:\n            del mapping[old_key]\n    new_set.add(ent)\n\n\nclass StrataInstanceVisibility(Enum):", 'extra': [{'file': 'vmf.py', 'find': "            _remove_copyset(self.map.by_target, (orig_val or '').casefold() or None, self)\n            if self in self.map.entities or self is self.map.spawn:\n                self.map.by_target[str_val.casefold() or None].add(self)\n", 'replace': "            old_name = (orig_val or '').casefold() or None\n            if self in self.map.entities or self is self.map.spawn:\n                _move_copyset(self.map.by_target, old_name, str_val.casefold() or None, self)\n            else:\n                _remove_copyset(self.map.by_target, old_name, self)\n"}], 'expect': 'C07.I3'},
+    {'id': 'ok_move_helper_removes_then_fetches', 'file': 'vmf.py', 'find': "class StrataInstanceVisibility(Enum):", 'replace': "def _move_copyset(mapping, old_key, new_key, ent):\n    _remove_copyset(mapping, old_key, ent)\n    mapping[new_key].add(ent)\n\n\nclass StrataInstanceVisibility(Enum):", 'extra': [{'file': 'vmf.py', 'find': "            _remove_copyset(self.map.by_target, (orig_val or '').casefold() or None, self)\n            if self in self.map.entities or self is self.map.spawn:\n                self.map.by_target[str_val.casefold() or None].add(self)\n", 'replace': "            old_name = (orig_val or '').casefold() or None\n            if self in self.map.entities or self is self.map.spawn:\n                _move_copyset(self.map.by_target, old_name, str_val.casefold() or None, self)\n            else:\n                _remove_copyset(self.map.by_target, old_name, self)\n"}], 'expect': None, 'refuse_ok': True, 'note': 'negative control: move helper that removes first and then looks the new set up'},
     {'id': 'create_ent_indexes_from_arguments', 'file': 'vmf.py', 'find': "        ent = Entity(self, keys=kargs)\n        self.add_ent(ent)\n", 'replace': "        ent = Entity(self, keys=kargs)\n        self.entities.append(ent)\n        self.by_class[classname.casefold()].add(ent)\n        self.by_target[str(kargs.get('targetname', '')).casefold() or None].add(ent)\n", 'expect': 'C07.I1'},
     {'id': 'delitem_adds_before_removing', 'file': 'vmf.py', 'find': "        if key == 'targetname':\n            _remove_copyset(self.map.by_target, self['targetname'].casefold() or None, self)\n            if self in self.map.entities or self is self.map.spawn:\n                self.map.by_target[None].add(self)\n", 'replace': "        if key == 'targetname':\n            old_name = self['targetname'].casefold() or None\n            if self in self.map.entities or self is self.map.spawn:\n                self.map.by_target[None].add(self)\n            _remove_copyset(self.map.by_target, old_name, self)\n", 'expect': 'C07.I3'},
     {'id': 'setitem_returns_when_value_unchanged', 'file': 'vmf.py', 'find': "        # TODO: if 'mapversion' is passed and self is self.map.spawn, update version there.\n", 'replace': "        if orig_val == str_val:\n            return\n        # TODO: if 'mapversion' is passed and self is self.map.spawn, update version there.\n", 'expect': 'C07.I3'},
